@@ -11,11 +11,12 @@ namespace Astm.C14
 open Astm Astm.Pipeline
 
 /-- the wiring of server.main, read from the source on every run: one queue shared by the protocol
-    factory and the consumer task, the consumer calls dispatch_astm_message for every item, dispatch
+    factory and the consumer task and created without a size limit, the consumer calls dispatch_astm_message for every item, dispatch
     archives with write_message(message, abspath(output)) when an output directory is given, the
     format comes from the command line (default json) -/
 theorem server_wiring :
     protocolFootprint.factoryFreshInstance = true ∧ protocolFootprint.factoryPassesQueue = true ∧
+    protocolFootprint.queueUnbounded = true ∧
     protocolFootprint.consumeTask = true ∧ protocolFootprint.callbackIsDispatch = true ∧
     protocolFootprint.writeWhenOutput = true ∧ protocolFootprint.writeArgs = true ∧
     protocolFootprint.formatFromArgs = true ∧ protocolFootprint.consumeLoopsForever = true ∧
